@@ -20,6 +20,9 @@
 //!   S11 / S11s S2c time-travelled to its first head with reload_until / + a staged update_object
 //!   S12 / S12s a replica opened on storage that holds three blocks, the pack of the third one missing (files copied
 //!              with read_object / write_object) / + staged
+//!   S13 / S13s reference cycle: A moves y under x (x.child♭ = y), B moves x under y, A melds B: x references y and y
+//!              references x / + staged.  These cases run in a CHILD PROCESS on a thread with a 1 MiB stack: unbounded
+//!              recursion would overflow the stack and kill the process (booked as `abort:<case>`)
 //! Operations (each where its arguments can be formed): commit, commit-info, update-edit (document just read with a
 //! changed title), update-reread (document just read, unchanged), create_object / update_object / delete_object on o1,
 //! read, read-o1 (read(Some("o1"))), get_value-all (every object, at None and at every live leaf), get_winner-all,
@@ -149,8 +152,8 @@ fn stranger() -> Result<Melda, String> {
     Ok(o)
 }
 
-const SITUATIONS: [&str; 24] = [
-    "S1", "S2c", "S2", "S3", "S3s", "S4", "S4s", "S5a", "S5as", "S5b", "S5bs", "S6", "S6s", "S7", "S7s", "S8", "S8s", "S9", "S9s", "S10", "S11", "S11s", "S12", "S12s",
+const SITUATIONS: [&str; 26] = [
+    "S1", "S2c", "S2", "S3", "S3s", "S4", "S4s", "S5a", "S5as", "S5b", "S5bs", "S6", "S6s", "S7", "S7s", "S8", "S8s", "S9", "S9s", "S10", "S11", "S11s", "S12", "S12s", "S13", "S13s",
 ];
 
 fn array_conflict_situation(sit: &str) -> bool {
@@ -214,6 +217,43 @@ fn build(sit: &str, script: usize, seed: u64) -> Result<Sit, String> {
                 orch::ge("B.update_object(o1)", || b.update_object("o1", orch::obj(json!({"v": 333}))))?;
             }
             Ok(Sit { m: b, ad, peer: a, older })
+        }
+        "S13" | "S13s" => {
+            // reference cycle: A moves y under x, B moves x under y; after the meld x references y and y references x
+            let kf = |s: &str| format!("{}{}", s, F);
+            let mut base = Map::new();
+            base.insert(kf("a"), json!({"_id": "x", "v": 1}));
+            base.insert(kf("b"), json!({"_id": "y", "v": 1}));
+            let mut a = orch::open(&ad)?;
+            orch::ge("A.update(base)", || a.update(base))?;
+            let older = Some(commit_some(&a, "A.commit base")?);
+            let mut b = orch::open(&orch::mem())?;
+            sync(&mut b, &a, "B takes the base")?;
+            let nest = |outer_key: &str, outer: &str, inner: &str| {
+                let mut o = Map::new();
+                o.insert("_id".into(), json!(outer));
+                o.insert("v".into(), json!(1));
+                o.insert(kf("child"), json!({"_id": inner, "v": 1}));
+                let mut d = Map::new();
+                d.insert(kf(outer_key), Value::Object(o));
+                d
+            };
+            orch::ge("A.update(y under x)", || a.update(nest("a", "x", "y")))?;
+            commit_some(&a, "A.commit")?;
+            orch::ge("B.update(x under y)", || b.update(nest("b", "y", "x")))?;
+            commit_some(&b, "B.commit")?;
+            sync(&mut a, &b, "A melds B")?;
+            let child = |m: &Melda, o: &str| orch::g(|| m.get_value(o, None)).ok().and_then(|r| r.ok()).and_then(|v| v.get(&kf("child")).cloned());
+            if child(&a, "x") != Some(json!("y")) || child(&a, "y") != Some(json!("x")) {
+                return Err(format!("driver: no reference cycle: x.child = {:?}, y.child = {:?}", child(&a, "x"), child(&a, "y")));
+            }
+            if sit == "S13s" {
+                let mut x2 = Map::new();
+                x2.insert("v".into(), json!(2));
+                x2.insert(kf("child"), json!("y"));
+                orch::ge("A.update_object(x)", || a.update_object("x", x2))?;
+            }
+            Ok(Sit { m: a, ad, peer: b, older })
         }
         "S12" | "S12s" => {
             let a_ad = orch::mem();
@@ -567,6 +607,8 @@ enum Step {
     ReadReturned,
     ReadPanicked(String),
     Setup(String),
+    /// the child process that ran the case died (stack overflow, abort)
+    Aborted(String),
 }
 
 fn with_caps<T>(sit: &str, f: impl FnOnce() -> T) -> T {
@@ -584,9 +626,101 @@ fn uncap() {
     std::env::remove_var("MELDA_DATA_CACHE_CAP");
 }
 
+/// The reference-cycle situations run in a child process (this binary, `replay returns {.., "inproc": true}`), on a thread
+/// with a 1 MiB stack: unbounded recursion overflows the stack, which kills the whole process and cannot be caught.
 fn spawn_case(sit: &'static str, script: usize, seed: u64, op: OpSpec) -> Receiver<Step> {
+    if sit.starts_with("S13") {
+        return spawn_child(sit, script, seed, op);
+    }
+    spawn_inproc(sit, script, seed, op, 8 << 20)
+}
+
+fn spawn_child(sit: &'static str, script: usize, seed: u64, op: OpSpec) -> Receiver<Step> {
     let (tx, rx) = channel();
-    let _ = std::thread::Builder::new().stack_size(8 << 20).spawn(move || {
+    let _ = std::thread::spawn(move || {
+        let mut input = input_of(sit, script, seed, &op);
+        input["inproc"] = json!(true);
+        let case = json!({"case_id": "child", "input": input});
+        let exe = match std::env::current_exe() {
+            Ok(e) => e,
+            Err(e) => {
+                let _ = tx.send(Step::Setup(format!("current_exe: {}", e)));
+                return;
+            }
+        };
+        let child = std::process::Command::new(exe)
+            .args(["replay", "returns", &case.to_string()])
+            .stdin(std::process::Stdio::null())
+            .stdout(std::process::Stdio::piped())
+            .stderr(std::process::Stdio::piped())
+            .spawn();
+        let mut child = match child {
+            Ok(c) => c,
+            Err(e) => {
+                let _ = tx.send(Step::Setup(format!("cannot start the child process: {}", e)));
+                return;
+            }
+        };
+        let t0 = Instant::now();
+        let status = loop {
+            match child.try_wait() {
+                Ok(Some(st)) => break Some(st),
+                Ok(None) if t0.elapsed() > Duration::from_secs(8) => {
+                    let _ = child.kill();
+                    let _ = child.wait();
+                    break None;
+                }
+                Ok(None) => std::thread::sleep(Duration::from_millis(5)),
+                Err(_) => break None,
+            }
+        };
+        let read_all = |r: Option<&mut dyn std::io::Read>| {
+            let mut s = String::new();
+            if let Some(r) = r {
+                let _ = r.read_to_string(&mut s);
+            }
+            s
+        };
+        let stdout = read_all(child.stdout.as_mut().map(|x| x as &mut dyn std::io::Read));
+        let stderr = read_all(child.stderr.as_mut().map(|x| x as &mut dyn std::io::Read));
+        let st = match status {
+            Some(st) => st,
+            None => return, // killed after the time limit: the parent books a hang
+        };
+        if !st.success() {
+            use std::os::unix::process::ExitStatusExt;
+            let _ = tx.send(Step::Aborted(format!(
+                "the process running the case died ({}): {}",
+                st.signal().map(|s| format!("signal {}", s)).unwrap_or_else(|| format!("exit code {:?}", st.code())),
+                stderr.lines().filter(|l| !l.trim().is_empty()).last().unwrap_or("")
+            )));
+            return;
+        }
+        let v: Value = stdout.lines().last().and_then(|l| serde_json::from_str(l).ok()).unwrap_or(Value::Null);
+        let what = v["what"].as_str().unwrap_or("").to_string();
+        match v["outcome"].as_str() {
+            Some("returned") => {
+                let _ = tx.send(Step::OpReturned(what));
+                let _ = tx.send(Step::ReadReturned);
+            }
+            Some("panic") => {
+                let _ = tx.send(Step::OpPanicked(what));
+            }
+            Some("hang") => {} // the parent's limit books it
+            Some("setup") => {
+                let _ = tx.send(Step::Setup(what));
+            }
+            _ => {
+                let _ = tx.send(Step::Setup(format!("unreadable answer of the child process: {}", stdout)));
+            }
+        }
+    });
+    rx
+}
+
+fn spawn_inproc(sit: &'static str, script: usize, seed: u64, op: OpSpec, stack: usize) -> Receiver<Step> {
+    let (tx, rx) = channel();
+    let _ = std::thread::Builder::new().stack_size(stack).spawn(move || {
         with_caps(sit, || {
             let mut s = match orch::g(|| build(sit, script, seed)) {
                 Ok(Ok(s)) => s,
@@ -636,6 +770,7 @@ fn verdict(rx: &Receiver<Step>, deadline: Instant, limit: Duration) -> Option<(&
             Ok(Step::OpPanicked(p)) => return Some(("panic", format!("the operation panicked: {}", p))),
             Ok(Step::ReadPanicked(p)) => return Some(("panic", format!("the operation returned ({}), the following read(None) panicked: {}", op_result.unwrap_or_default(), p))),
             Ok(Step::Setup(e)) => return Some(("setup", format!("the situation could not be built / driven: {}", e))),
+            Ok(Step::Aborted(e)) => return Some(("abort", e)),
             Err(_) => {
                 return Some(match op_result {
                     None => ("hang", format!("the operation did not return within {} ms (thread abandoned)", limit.as_millis())),
@@ -671,7 +806,7 @@ fn book(out: &Out, tally: &mut Tally, sit: &str, script: usize, seed: u64, op: &
         eprintln!("[returns] {} {} | {}", kind.to_uppercase(), fid, what);
         match kind {
             "hang" => tally.hangs.push(id.clone()),
-            "panic" => tally.panics.push(id.clone()),
+            "panic" | "abort" => tally.panics.push(id.clone()),
             _ => {}
         }
         // one slot per kind and operation name keeps the report informative
@@ -685,7 +820,7 @@ fn work(thorough: bool, seed: u64, out: &Out) {
     // enumerate the cases (the situation is built once here to see which arguments can be formed)
     let mut all: Vec<(&'static str, usize, OpSpec)> = vec![];
     for sit in SITUATIONS {
-        let scripts = if thorough && !matches!(sit.trim_end_matches('s'), "S7" | "S8" | "S9" | "S10") { 4 } else { 1 };
+        let scripts = if thorough && !matches!(sit.trim_end_matches('s'), "S7" | "S8" | "S9" | "S10" | "S13") { 4 } else { 1 };
         for script in 0..scripts {
             out.begin(&format!("{}#{}: enumerating operations", sit, script), json!({"situation": sit, "script": script}));
             let (tx, rx) = channel();
@@ -758,11 +893,11 @@ pub fn run(thorough: bool, seed: u64) -> Report {
     let mut rep = Report::new(
         "returns",
         if thorough {
-            "24 situations (S1..S6s as in `maintenance`, S7/S7s three-leaf object conflict, S8/S8s array + object conflict, S9/S9s array deleted on one side and edited on the other, S10 resolved but not committed, S11/S11s time-travelled, S12/S12s held-back block with a missing pack) x 4 edit scripts for S1..S6s, S11*, S12* (1 for the others) x every operation whose arguments can be formed out of 33 plain operations + resolve_as and resolve_as+commit for every live leaf of every object in conflict; one operation per case, then read(None); 5 s limit"
+            "26 situations (S1..S6s as in `maintenance`, S7/S7s three-leaf object conflict, S8/S8s array + object conflict, S9/S9s array deleted on one side and edited on the other, S10 resolved but not committed, S11/S11s time-travelled, S12/S12s held-back block with a missing pack, S13/S13s reference cycle between two tracked objects, run in a child process) x 4 edit scripts for S1..S6s, S11*, S12* (1 for the others) x every operation whose arguments can be formed out of 33 plain operations + resolve_as and resolve_as+commit for every live leaf of every object in conflict; one operation per case, then read(None); 5 s limit"
         } else {
-            "24 situations (S1..S6s as in `maintenance`, S7/S7s three-leaf object conflict, S8/S8s array + object conflict, S9/S9s array deleted on one side and edited on the other, S10 resolved but not committed, S11/S11s time-travelled, S12/S12s held-back block with a missing pack) x 1 edit script x every operation whose arguments can be formed out of 33 plain operations + resolve_as and resolve_as+commit for every live leaf of every object in conflict; one operation per case, then read(None); 2 s limit"
+            "26 situations (S1..S6s as in `maintenance`, S7/S7s three-leaf object conflict, S8/S8s array + object conflict, S9/S9s array deleted on one side and edited on the other, S10 resolved but not committed, S11/S11s time-travelled, S12/S12s held-back block with a missing pack, S13/S13s reference cycle between two tracked objects, run in a child process) x 1 edit script x every operation whose arguments can be formed out of 33 plain operations + resolve_as and resolve_as+commit for every live leaf of every object in conflict; one operation per case, then read(None); 2 s limit"
         },
-        "exhaustive over situations x scripts x formable operations; one case each, in a thread of its own; failure = panic (panic:<case>) or no return within the limit (hang:<case>); every case non-trivial",
+        "exhaustive over situations x scripts x formable operations; one case each, in a thread of its own; failure = panic (panic:<case>), death of the process running the case (abort:<case>) or no return within the limit (hang:<case>); every case non-trivial",
     );
     if std::env::var_os("RAYON_NUM_THREADS").is_none() {
         std::env::set_var("RAYON_NUM_THREADS", "2");
@@ -786,12 +921,21 @@ pub fn replay(case: &Value) -> Value {
     let script = inp["script"].as_u64().unwrap_or(0) as usize;
     let seed = inp["seed"].as_u64().unwrap_or(0);
     let limit = Duration::from_secs(5);
+    if inp["inproc"].as_bool() == Some(true) {
+        // child-process mode (see spawn_child): run the case here, on a small stack, and say what happened
+        let rx = spawn_inproc(sit, script, seed, op, 1 << 20);
+        return match verdict(&rx, Instant::now() + limit, limit) {
+            None => json!({"outcome": "returned", "what": "both steps returned"}),
+            Some((kind, what)) => json!({"outcome": kind, "what": what}),
+        };
+    }
+    let limit = if sit.starts_with("S13") { Duration::from_secs(9) } else { limit };
     let rx = spawn_case(sit, script, seed, op);
     let v = verdict(&rx, Instant::now() + limit, limit);
     let want = case["case_id"].as_str().unwrap_or("");
     let want_kind = want.split(':').next().unwrap_or("");
     match v {
         None => json!({"reproduced": false, "outcome": "returned"}),
-        Some((kind, what)) => json!({"reproduced": want_kind == kind || !matches!(want_kind, "hang" | "panic" | "setup"), "outcome": kind, "what": what}),
+        Some((kind, what)) => json!({"reproduced": want_kind == kind || !matches!(want_kind, "hang" | "panic" | "setup" | "abort"), "outcome": kind, "what": what}),
     }
 }
